@@ -410,7 +410,7 @@ func (fr *Frame) binop(in *ssa.BinOp) *GVal {
 		case token.MUL:
 			return res(App("fp.mul", SF64, mk("RNE", mkSort("RoundingMode")), x, y))
 		case token.QUO:
-			return res(App("fp.div", SF64, mk("RNE", mkSort("RoundingMode")), x, y))
+			return res(App("f64.div", SF64, x, y))
 		case token.LSS:
 			return res(App("f64.lt", SBool, x, y))
 		case token.LEQ:
